@@ -176,7 +176,7 @@ void hk_ext_stuck(void)
 			c->stuck_nhist = atomic_load(&c->nhist);
 			continue;
 		}
-		if (now - c->stuck_since < 200000000LL)
+		if (now - c->stuck_since < 1000000000LL)
 			continue;
 		c->stuck_since = 0;
 		hist(c, '!');
